@@ -639,7 +639,13 @@ def _c17_forms_chunk(arg):
     rng = rng_for('C17', 'chunks' + salt)
     for src in cases:
         ref, err = try_parse(src)
-        refobs = _obs(ref) if ref is not None else ('ERR', err)
+        try:
+            refobs = _obs(ref) if ref is not None else ('ERR', err)
+        except BaseException as e:      # noqa  (e.g. a tree that contains itself)
+            r.fail(Failure('C17', 'earlier-parse-or-edit-influences-parse', src,
+                           'observing the parse result raised ' + type(e).__name__,
+                           'a finite tree that depends on the source text only'))
+            continue
         forms = []
         for parts in chunkings(src, rng, max_exhaustive=9):
             forms.append(('list', parts))
@@ -680,7 +686,13 @@ def _c17_isolation_chunk(arg):
         rb, _ = try_parse(b)
         if ra is None or rb is None:
             continue
-        refa, refb = _obs(ra), _obs(rb)
+        try:
+            refa, refb = _obs(ra), _obs(rb)
+        except BaseException as e:      # noqa  (e.g. a tree that contains itself)
+            r.fail(Failure('C17', 'earlier-parse-or-edit-influences-parse', {'first': a, 'second': b},
+                           'observing the parse result raised ' + type(e).__name__,
+                           'a finite tree that depends on the source text only'))
+            continue
         r.saw((a, b))
         # interleave parses and edits
         sa = impl.parse(a)
